@@ -21,7 +21,15 @@ var qsrc = []string{
 
 var ambiguous = []string{"f()/a", "$v/a", "(x)/a", "f()", "text()", "a[b]/c", "f()//a", "$v[1]/a"}
 
+var hist []*xsel.Grammar
+var histSrc = []string{"$p:v", "p:f()", "//*[p:f()]", "//*[$p:v = $q:v]", "string(p:f()) = $p:v"}
+
 func Setup() {
+	hist = nil
+	for _, s := range histSrc {
+		g := xsel.MustBuildExpr(s)
+		hist = append(hist, &g)
+	}
 	queries = nil
 	for _, s := range qsrc {
 		g := xsel.MustBuildExpr(s)
@@ -268,5 +276,77 @@ func RunBuildDeterminism() {
 	nd.Assert((x1 == nil) == (x2 == nil), "build.same-outcome")
 	if x1 == nil && x2 == nil {
 		nd.Assert(sameResult(r1, r2), "build.equivalent-query")
+	}
+}
+
+// RunHistory: the result of a query is a function of its own bindings only,
+// whatever bindings earlier executions of the same lexical names used: three
+// executions with prefix bindings drawn independently (p and q each unbound or
+// bound to one of two URIs) must each equal what the same call gives when it is
+// the first one made (the call is made first on another path).
+func RunHistory() {
+	b := hx.Gen(hx.GenOpts{MaxEvents: 3, MaxDepth: 2, Attrs: 0})
+	nd.Assert(b.TieOK, "store-mirrors-script")
+	qi := nd.Choice(len(hist))
+	q := hist[qi]
+	hasElem := len(b.Doc.Nodes[0].Children) > 0
+	uris := []string{"", "u1", "u2"}
+	type bnd struct{ p, q int }
+	mk := func(x bnd) []xsel.ContextApply {
+		var set []xsel.ContextApply
+		if x.p > 0 {
+			set = append(set, xsel.WithNS("p", uris[x.p]))
+		}
+		if x.q > 0 {
+			set = append(set, xsel.WithNS("q", uris[x.q]))
+		}
+		for _, u := range uris[1:] {
+			u := u
+			set = append(set, xsel.WithVariableNS(u, "v", xsel.String("var-"+u)),
+				xsel.WithFunctionNS(u, "f", func(ctx xsel.Context, args ...xsel.Result) (xsel.Result, error) {
+					return xsel.String("var-" + u), nil
+				}))
+		}
+		return set
+	}
+	var xs [3]bnd
+	for k := range xs {
+		xs[k] = bnd{nd.Choice(3), nd.Choice(3)}
+	}
+	nd.Reach("history")
+	obs := func(x bnd) (xsel.Result, error) { return xsel.Exec(b.Root, q, mk(x)...) }
+	var rs [3]xsel.Result
+	var es [3]error
+	for k := range xs {
+		rs[k], es[k] = obs(xs[k])
+		// an unbound p is an error wherever $p:v or p:f() is evaluated (inside a
+		// predicate only when there is a candidate)
+		if xs[k].p == 0 && (hasElem || (qi != 2 && qi != 3)) {
+			nd.Assert(es[k] != nil, "history.unbound-prefix-is-an-error")
+		}
+	}
+	// equal bindings give equal results wherever they stand in the history
+	for i := 0; i < 3; i++ {
+		for j := i + 1; j < 3; j++ {
+			if xs[i] == xs[j] {
+				nd.Assert((es[i] == nil) == (es[j] == nil), "history.same-bindings-same-outcome")
+				if es[i] == nil && es[j] == nil {
+					nd.Assert(sameResult(rs[i], rs[j]), "history.same-bindings-same-result")
+				}
+			}
+		}
+	}
+	// the value names the URI bound now, not one bound earlier
+	for k := range xs {
+		if es[k] != nil || xs[k].p == 0 {
+			continue
+		}
+		want := "var-" + uris[xs[k].p]
+		switch v := rs[k].(type) {
+		case xsel.String:
+			nd.Assert(string(v) == want, "history.value-from-current-bindings")
+		case xsel.Bool:
+			nd.Assert(bool(v), "history.value-from-current-bindings")
+		}
 	}
 }
